@@ -240,8 +240,11 @@ func fieldName(n *types.Named, f *types.Var) string {
 	if n.Obj().Pkg() != nil {
 		pkg = load.ShortPkg(n.Obj().Pkg().Path()) + "."
 	}
-	return pkg + n.Obj().Name() + "." + f.Name()
+	return pkg + n.Obj().Name() + "." + fieldCanon(f)
 }
+
+// fieldCanon is the name the rules know a field by (set per run to Program.FieldName: renamed anchor fields keep their recorded name).
+var fieldCanon = func(f *types.Var) string { return f.Name() }
 
 // fieldsIn returns those objects of s that are struct fields of one of the given types.
 func fieldsIn(s flowx.Set, owner map[*types.Var]*types.Named) []*types.Var {
